@@ -20,7 +20,7 @@ VERIF = os.path.dirname(os.path.dirname(os.path.abspath(__file__)))
 SPEC = os.path.join(VERIF, "spec")
 HARNESS = os.path.join(VERIF, "harness")
 CACHE = os.path.join(VERIF, "cache")
-REPO = "/repo"
+REPO = os.environ.get("VERIF_REPO", "/repo")   # the registered checks always use /repo; the override serves the seeded-change matrix
 NCPU = os.cpu_count() or 4
 
 GOENV = dict(os.environ, GOFLAGS="-mod=mod", GOPROXY="off", GOSUMDB="off", GOTOOLCHAIN="local",
@@ -160,7 +160,14 @@ class Run:
         env = dict(GOENV)
         if race:
             env["CGO_ENABLED"] = "1"
-        p = subprocess.run(cmd, cwd=HARNESS, env=env, capture_output=True, text=True)
+        hdir = HARNESS
+        if REPO != "/repo":
+            hdir = os.path.join(self.dir, "harness-src")
+            if not os.path.exists(hdir):
+                shutil.copytree(HARNESS, hdir)
+                gm = open(os.path.join(hdir, "go.mod")).read().replace("=> /repo", "=> " + REPO)
+                open(os.path.join(hdir, "go.mod"), "w").write(gm)
+        p = subprocess.run(cmd, cwd=hdir, env=env, capture_output=True, text=True)
         if p.returncode != 0:
             raise Infra("harness build failed (does /repo still compile with -tags verif?):\n" + p.stderr[-3000:])
         self.harness_bin[key] = out
@@ -292,7 +299,8 @@ def finish(run, level, rule, exhaustive=False, extra=None, assumptions=None):
             violations.append(r)
     for fid, (f, n) in sorted(known.items()):
         print("KNOWN-FINDING: property=%s %s (%s; %d cases)" % (prop, f["what"], fid, n))
-    rdir = os.path.join(VERIF, "replays", prop)
+    outroot = os.environ.get("VERIF_OUT", VERIF)      # the seeded-change matrix writes its evidence and replays elsewhere
+    rdir = os.path.join(outroot, "replays", prop)
     shown = 0
     seen = set()
     if violations:
@@ -339,7 +347,7 @@ def finish(run, level, rule, exhaustive=False, extra=None, assumptions=None):
         "wall_s": round(time.time() - run.t0, 1),
         "violations": len(violations),
     }
-    os.makedirs(os.path.join(VERIF, "evidence"), exist_ok=True)
-    with open(os.path.join(VERIF, "evidence", prop + ".json"), "w") as f:
+    os.makedirs(os.path.join(outroot, "evidence"), exist_ok=True)
+    with open(os.path.join(outroot, "evidence", prop + ".json"), "w") as f:
         json.dump(ev, f, indent=1)
     return 1 if violations else 0
